@@ -41,7 +41,7 @@ Qed.
 Definition created (o : op) (c : cat) : bool :=
   match o with
   | CreateTable t cs pk =>
-    let names := map (fun p => fst (fst p)) cs in
+    let names := map sname cs in
     negb (has_tbl t c) && negb (isnil cs) && nodupb names && forallb (fun n => mem n names) pk && nodupb pk
   | _ => false
   end.
@@ -69,11 +69,11 @@ Qed.
 
 Theorem step_table_names : forall o c, tnames (exec o c) = names_after o c.
 Proof.
-  intros o c. unfold exec. destruct o as [t cs pk | t | t u | t x ty nl p | t x | t x y | t i cs uq | t i | t cs | t | t f cs p pcs | t f | t k x b | t k | v b cs | v | g t before ev r | g | p v | p]; cbn [names_after created].
+  intros o c. unfold exec. destruct o as [t cs pk | t | t u | t s p | t x | t x y | t i cs pre uq | t i x | t i | t cs | t | t f cs p pcs | t f | t k x b | t k | v b cs | v | g t before ev r | g | p v | p]; cbn [names_after created].
   - (* CreateTable *)
     cbn [step].
-    destruct (negb (has_tbl t c) && negb (isnil cs) && nodupb (map (fun p => fst (fst p)) cs)
-              && forallb (fun n => mem n (map (fun p => fst (fst p)) cs)) pk && nodupb pk); cbn; [|reflexivity].
+    destruct (negb (has_tbl t c) && negb (isnil cs) && nodupb (map sname cs)
+              && forallb (fun n => mem n (map sname cs)) pk && nodupb pk); cbn; [|reflexivity].
     unfold tnames. cbn. now rewrite map_app.
   - (* DropTable *)
     cbn [step].
@@ -87,7 +87,7 @@ Proof.
   - apply upd_names; reflexivity.
   - (* DropColumn *)
     cbn [step]. destruct (find_tbl t c) as [tb|] eqn:Ef; [|reflexivity].
-    destruct (find_col x tb) as [cl|]; [|reflexivity].
+    destruct (find_col x tb) as [cl|]; [|reflexivity]. destruct (fn_depends x tb); [reflexivity|].
     match goal with |- context [if ?b then (false, _) else (true, _)] => destruct b end; cbn; unfold tnames; cbn; apply set_tbl_names; cbn; eapply find_tbl_name; eauto.
   - (* RenameColumn *)
     cbn [step].
@@ -96,12 +96,13 @@ Proof.
       cbn in *; exact Hn.
   - apply upd_names; reflexivity.
   - apply upd_names; reflexivity.
+  - apply upd_names. intros t0. unfold drop_idx_full_tbl. destruct (existsb _ _); reflexivity.
   - apply upd_names; reflexivity.
   - apply upd_names; reflexivity.
   - (* AddFK *)
     cbn [step]. destruct (find_tbl t c) as [tb|] eqn:Ef; [|reflexivity]. destruct (find_tbl p c) as [pb|]; [|reflexivity].
     match goal with |- context [if ?b then _ else (false, c)] => destruct b end; [|reflexivity].
-    assert (Hs : tnames (with_tables c (set_tbl t (add_idx_tbl (mkidx f cs false t) tb) (tables c))) = tnames c).
+    assert (Hs : tnames (with_tables c (set_tbl t (add_idx_tbl (mkidx f cs false t []) tb) (tables c))) = tnames c).
     { unfold tnames. cbn. apply set_tbl_names. cbn. eapply find_tbl_name; eauto. }
     destruct (negb (fk_index_ok tb cs false None)); cbn.
     + destruct (has_idx f tb || N.eqb f PRIMARY); [reflexivity|].
@@ -163,7 +164,7 @@ Qed.
 
 Lemma step_keeps_unique_names : forall o c, NoDup (tnames c) -> NoDup (tnames (exec o c)).
 Proof.
-  intros o c Hd. rewrite step_table_names. destruct o as [t cs pk | t | t u | t x ty nl p | t x | t x y | t i cs uq | t i | t cs | t | t f cs p pcs | t f | t k x b | t k | v b cs | v | g t before ev r | g | p v | p]; cbn [names_after]; try assumption.
+  intros o c Hd. rewrite step_table_names. destruct o as [t cs pk | t | t u | t s p | t x | t x y | t i cs pre uq | t i x | t i | t cs | t | t f cs p pcs | t f | t k x b | t k | v b cs | v | g t before ev r | g | p v | p]; cbn [names_after]; try assumption.
   - destruct (created (CreateTable t cs pk) c) eqn:E; [|assumption].
     cbn [created] in E. rewrite !andb_true_iff in E. destruct E as [[[[E _] _] _] _].
     apply negb_true_iff in E.
@@ -244,9 +245,15 @@ Proof.
       split; [assumption | now apply N.eqb_eq].
 Qed.
 
-(* ordinal positions: the columns of a table are listed in schema order, numbered 1, 2, ... *)
+(* ordinal positions: the visible columns of a table are listed in schema order; the position counts every schema
+   column, hidden system columns included (so it is 1, 2, ... exactly when the table has none) *)
 Fixpoint numbered (n : N) (l : list name) : list (name * N) :=
   match l with [] => [] | x :: r => (x, n) :: numbered (n + 1) r end.
+Fixpoint numbered_visible (n : N) (l : list col) : list (name * N) :=
+  match l with
+  | [] => []
+  | x :: r => if visible x then (cname x, n) :: numbered_visible (n + 1) r else numbered_visible (n + 1) r
+  end.
 
 Lemma col_keys_length : forall m cs b, length (col_keys m b cs) = length cs.
 Proof.
@@ -258,18 +265,33 @@ Qed.
 
 Lemma columns_numbered : forall tn n cs ks, length ks = length cs ->
   map (fun r => (nth 1 r 0, nth 2 r 0))
-      (map (fun p => let '(n, (c, k)) := p in [tn; cname c; n; yesno (cnull c); cty c; k])
-           (number_from n (combine cs ks)))
-  = numbered n (map cname cs).
+      (map (fun p => let '(n, (c, k)) := p in [tn; cname c; n; yesno (cnull c); cty c; k; def_code (cdef c); ccom c])
+           (filter (fun p : N * (col * N) => visible (fst (snd p))) (number_from n (combine cs ks))))
+  = numbered_visible n cs.
 Proof.
   intros tn n cs. revert n. induction cs as [|c r IH]; intros n ks Hl; [reflexivity|].
-  destruct ks as [|k ks]; [discriminate|]. cbn. f_equal. apply IH. cbn in Hl. lia.
+  destruct ks as [|k ks]; [discriminate|]. cbn. cbn in Hl.
+  destruct (visible c); cbn; [f_equal|]; apply IH; lia.
 Qed.
 
 Theorem columns_ordinals_exact : forall t,
+  map (fun r => (nth 1 r 0, nth 2 r 0)) (table_columns_rows t) = numbered_visible 1 (tcols t).
+Proof.
+  intros t. unfold table_columns_rows. apply columns_numbered. apply col_keys_length.
+Qed.
+
+Lemma numbered_visible_all : forall cs n, forallb visible cs = true -> numbered_visible n cs = numbered n (map cname cs).
+Proof.
+  induction cs as [|c r IH]; intros n H; [reflexivity|]. cbn in *. apply andb_true_iff in H. destruct H as [Hc Hr].
+  rewrite Hc. f_equal. now apply IH.
+Qed.
+
+Theorem columns_ordinals_contiguous : forall t, has_hidden t = false ->
   map (fun r => (nth 1 r 0, nth 2 r 0)) (table_columns_rows t) = numbered 1 (colnames t).
 Proof.
-  intros t. unfold table_columns_rows, colnames. apply columns_numbered. apply col_keys_length.
+  intros t H. rewrite columns_ordinals_exact. apply numbered_visible_all.
+  unfold has_hidden in H. clear -H. induction (tcols t) as [|c r IH]; [reflexivity|]. cbn in *.
+  destruct (visible c); cbn in *; [now apply IH | discriminate].
 Qed.
 
 Theorem columns_rows_belong_to_table : forall t r, In r (table_columns_rows t) -> nth 0 r 0 = tname t.
@@ -278,9 +300,9 @@ Proof.
   destruct H as [[n [c k]] [E _]]. subst. reflexivity.
 Qed.
 
-(* STATISTICS: exactly one row per (index, position) *)
-Lemma number_from_nth {A} : forall (l : list A) n p,
-  In p (number_from n l) <-> exists k, nth_error l k = Some (snd p) /\ fst p = n + N.of_nat k.
+(* STATISTICS: exactly one row per (index, key position) *)
+Lemma number_nat_nth {A} : forall (l : list A) n p,
+  In p (number_nat n l) <-> exists k, nth_error l k = Some (snd p) /\ fst p = (n + k)%nat.
 Proof.
   induction l as [|a r IH]; intros n p; cbn.
   - split; [tauto | intros [k [H _]]; destruct k; discriminate].
@@ -296,13 +318,13 @@ Qed.
 Theorem statistics_rows_exact : forall t r,
   In r (table_statistics_rows t) <->
   exists i k x, In i (all_idx t) /\ nth_error (icols i) k = Some x /\
-    r = [tname t; bN (negb (iuniq i)); iname i; 1 + N.of_nat k; x; col_nullable t x].
+    r = [tname t; bN (negb (iuniq i)); iname i; N.of_nat k + 1; col_shown t x; col_nullable t x; sub_part i k; col_expr t x].
 Proof.
   intros t r. unfold table_statistics_rows. rewrite in_flat_map. split.
   - intros [i [Hi H]]. unfold index_rows in H. apply in_map_iff in H. destruct H as [[n x] [E H]].
-    apply number_from_nth in H. destruct H as [k [H1 H2]]. cbn in *. subst. exists i, k, x. auto.
+    apply number_nat_nth in H. destruct H as [k [H1 H2]]. cbn in *. subst. exists i, k, x. auto.
   - intros [i [k [x [Hi [Hk E]]]]]. exists i. split; [assumption|]. unfold index_rows. apply in_map_iff.
-    exists (1 + N.of_nat k, x). split; [now subst|]. apply number_from_nth. exists k. auto.
+    exists (k, x). split; [now subst|]. apply number_nat_nth. exists k. auto.
 Qed.
 
 (* ---------- DROP TABLE cascades; RENAME TABLE moves one object ---------- *)
@@ -357,7 +379,7 @@ Definition no_leak (o : op) (c : cat) : bool :=
 
 Theorem rejected_statement_no_effect : forall o c, no_leak o c = true -> fst (step o c) = false -> snd (step o c) = c.
 Proof.
-  intros o c Hg. destruct o as [t cs pk | t | t u | t x ty nl p | t x | t x y | t i cs uq | t i | t cs | t | t f cs p pcs | t f | t k x b | t k | v b cs | v | g t before ev r | g | p v | p]; cbn [no_leak] in Hg; try discriminate; cbn [step];
+  intros o c Hg. destruct o as [t cs pk | t | t u | t s p | t x | t x y | t i cs pre uq | t i x | t i | t cs | t | t f cs p pcs | t f | t k x b | t k | v b cs | v | g t before ev r | g | p v | p]; cbn [no_leak] in Hg; try discriminate; cbn [step];
     try (apply upd_rejected);
     try (match goal with |- context [if ?b then (true, _) else (false, c)] => destruct b; cbn; congruence end).
   - rewrite Hg. match goal with |- context [if ?b then _ else (false, c)] => destruct b; cbn; congruence end.
@@ -394,30 +416,30 @@ Proof. reflexivity. Qed.
 Definition cat_view5 : cat := mkcat [] [] [mkview 5 7 [1]] [] [].
 Lemma rejected_create_has_effect :
   exists o c, fst (step o c) = false /\ tables (snd (step o c)) <> tables c.
-Proof. exists (CreateTable 5 [(1, 1, true)] []), cat_view5. split; [reflexivity | vm_compute; discriminate]. Qed.
+Proof. exists (CreateTable 5 [mkcs 1 1 true None 0] []), cat_view5. split; [reflexivity | vm_compute; discriminate]. Qed.
 Definition h_fk : list op :=
-  [CreateTable 1 [(10, 1, false)] [10]; CreateTable 2 [(10, 1, false); (11, 1, true)] [10]; CreateTable 3 [(10, 1, false)] [10];
+  [CreateTable 1 [mkcs 10 1 false None 0] [10]; CreateTable 2 [mkcs 10 1 false None 0; mkcs 11 1 true None 0] [10]; CreateTable 3 [mkcs 10 1 false None 0] [10];
    AddFK 2 20 [11] 1 [10]; RenameTable 1 3].
 Lemma rejected_rename_rewrites_fk :
   fst (step (RenameTable 1 3) (run (removelast h_fk) empty)) = false /\
   map fparent (fks (run (removelast h_fk) empty)) = [1] /\ map fparent (fks (run h_fk empty)) = [3].
 Proof. repeat split; vm_compute; reflexivity. Qed.
-Definition h_view : list op := [CreateTable 1 [(10, 1, true)] []; CreateView 30 1 [10]; RenameColumn 1 10 11].
+Definition h_view : list op := [CreateTable 1 [mkcs 10 1 true None 0] []; CreateView 30 1 [10]; RenameColumn 1 10 11].
 Lemma view_not_listed :
   map vname (views (run h_view empty)) = [30] /\ In [30; VIEWT] (tables_rows (run h_view empty)) /\
   views_rows (run h_view empty) = [].
 Proof. split; [|split]; vm_compute; auto. Qed.
-Definition h_trig : list op := [CreateTable 1 [(10, 1, true)] []; CreateTrigger 40 1 true 0 (Some 10); RenameTable 1 2].
+Definition h_trig : list op := [CreateTable 1 [mkcs 10 1 true None 0] []; CreateTrigger 40 1 true 0 (Some 10); RenameTable 1 2].
 Lemma triggers_unlistable :
   map gname (trigs (run h_trig empty)) = [40] /\ show_triggers_rows (run h_trig empty) = None /\
   is_triggers_rows (run h_trig empty) = None /\ fst (step (DropTable 2) (run h_trig empty)) = false.
 Proof. repeat split; vm_compute; reflexivity. Qed.
 Definition h_pk : list op :=
-  [CreateTable 1 [(10, 1, true); (11, 1, false); (12, 1, false)] [11; 12]; RenameColumn 1 12 13].
+  [CreateTable 1 [mkcs 10 1 true None 0; mkcs 11 1 false None 0; mkcs 12 1 false None 0] [11; 12]; RenameColumn 1 12 13].
 Lemma pk_garbled :
   option_map pk_cols (find_tbl 1 (run (removelast h_pk) empty)) = Some [11; 12] /\
   option_map pk_cols (find_tbl 1 (run h_pk empty)) = Some [13; 10].
 Proof. split; vm_compute; reflexivity. Qed.
 Definition h_ok : list op :=
-  [CreateTable 1 [(10, 1, false); (11, 1, true)] [10]; CreateTable 2 [(10, 1, false); (11, 1, true)] [10];
-   CreateIndex 1 50 [11] true; AddFK 2 20 [11] 1 [11]; AddCheck 2 60 11 5; RenameTable 2 3; DropTable 3; DropTable 1].
+  [CreateTable 1 [mkcs 10 1 false None 0; mkcs 11 1 true None 0] [10]; CreateTable 2 [mkcs 10 1 false None 0; mkcs 11 1 true None 0] [10];
+   CreateIndex 1 50 [11] [] true; AddFK 2 20 [11] 1 [11]; AddCheck 2 60 11 5; RenameTable 2 3; DropTable 3; DropTable 1].
